@@ -317,6 +317,7 @@ def check_overrides(rep, fb):
                    ("overrides provided method(s) %s that no rule analyses" % sorted(bad)) if bad else ("overrides %s" % (sorted(over) or "nothing")), None)
     if n == 0:
         rep.ob("override.analysed", "workspace", False, "no trait impl with provided methods found")
+    check_cfg_coverage(rep, fb)
 
 
 def check_exports(rep, fb):
@@ -333,3 +334,114 @@ def check_exports(rep, fb):
             rep.ob("export.name", "%s::%s" % (cr.name, e["name"]), e["name"] == e["target_name"], "public name %s -> %s" % (e["name"], e["target"]))
     if n == 0:
         rep.ob("export.name", "workspace", False, "no public type found at any crate root")
+
+
+# ---------------------------------------------------------------- configuration coverage
+_CFG_RE = None
+
+
+def _cfg_predicates(text):
+    """[(line, predicate string)] of every #[cfg(..)], #[cfg_attr(.., ..)] and cfg!(..) in Rust
+    source text (comments skipped; parentheses balanced by counting)."""
+    import re
+    out = []
+    # drop line comments (incl. doc comments) and block comments, keep line numbers
+    text = re.sub(r"/\*.*?\*/", lambda m: "\n" * m.group(0).count("\n"), text, flags=re.S)
+    lines = [re.sub(r"//.*", "", ln) for ln in text.split("\n")]
+    src = "\n".join(lines)
+    for m in re.finditer(r"\bcfg(_attr)?\s*!?\s*\(", src):
+        i = m.end()
+        depth = 1
+        j = i
+        while j < len(src) and depth:
+            if src[j] == "(":
+                depth += 1
+            elif src[j] == ")":
+                depth -= 1
+            j += 1
+        body = src[i:j - 1]
+        if m.group(1):
+            # cfg_attr(predicate, attrs...): the predicate is the first top-level argument
+            d = 0
+            for k, ch in enumerate(body):
+                if ch == "(":
+                    d += 1
+                elif ch == ")":
+                    d -= 1
+                elif ch == "," and d == 0:
+                    body = body[:k]
+                    break
+        out.append((src.count("\n", 0, m.start()) + 1, " ".join(body.split())))
+    return out
+
+
+def _cfg_ok(pred, features):
+    """is the predicate decided by the three analysed feature configurations?  Accepted: a declared
+    feature, `not(feature)`, all/any over positive features, test/doc/docsrs.  Anything else
+    (target_*, debug_assertions, mixed positive/negative combinations, undeclared features)
+    selects code that no analysed configuration compiles."""
+    import re
+    p = pred.strip()
+    if p in ("test", "doc", "docsrs", "doctest"):
+        return True
+    m = re.fullmatch(r'feature\s*=\s*"([^"]+)"', p)
+    if m:
+        return m.group(1) in features
+    m = re.fullmatch(r"not\s*\((.*)\)", p)
+    if m:
+        inner = m.group(1).strip()
+        return bool(re.fullmatch(r'feature\s*=\s*"([^"]+)"', inner)) and _cfg_ok(inner, features) or inner in ("test", "doc", "docsrs", "doctest")
+    m = re.fullmatch(r"(all|any)\s*\((.*)\)", p)
+    if m:
+        parts, d, cur = [], 0, ""
+        for ch in m.group(2):
+            if ch == "(":
+                d += 1
+            elif ch == ")":
+                d -= 1
+            if ch == "," and d == 0:
+                parts.append(cur)
+                cur = ""
+            else:
+                cur += ch
+        if cur.strip():
+            parts.append(cur)
+        return all((not q.strip().startswith("not")) and _cfg_ok(q, features) for q in parts)
+    return False
+
+
+def check_cfg_coverage(rep, fb):
+    """every conditional-compilation predicate in the workspace sources is one that the analysed
+    feature configurations decide: code under any other predicate (target_endian, pointer width,
+    debug_assertions, ..) is never seen by the compiler-based analysis, so it is reported."""
+    import glob
+    import os
+    import re
+    from . import facts as FX
+    n = 0
+    for cr in fb.workspace():
+        d = os.path.join(FX.REPO, cr.name.replace("_", "-"))
+        if not os.path.isdir(d):
+            d = os.path.join(FX.REPO, cr.name)
+        feats = set()
+        try:
+            toml = open(os.path.join(d, "Cargo.toml")).read()
+            sec = re.search(r"^\[features\](.*?)(^\[|\Z)", toml, flags=re.S | re.M)
+            if sec:
+                feats = set(re.findall(r"^([A-Za-z0-9_\-]+)\s*=", sec.group(1), flags=re.M))
+        except OSError:
+            rep.ob("cfg.analysed", cr.name, False, "Cargo.toml of %s not found under %s" % (cr.name, FX.REPO))
+            continue
+        files = sorted(glob.glob(os.path.join(d, "src", "**", "*.rs"), recursive=True))
+        if os.path.exists(os.path.join(d, "build.rs")):
+            rep.ob("cfg.analysed", "%s/build.rs" % cr.name, False, "a build script can select code no analysed configuration compiles")
+        for f in files:
+            preds = _cfg_predicates(open(f).read())
+            bad = [(ln, p) for ln, p in preds if not _cfg_ok(p, feats)]
+            n += 1
+            rel = os.path.relpath(f, FX.REPO)
+            rep.ob("cfg.analysed", rel, not bad,
+                   ("conditional code outside the analysed configurations: %s" % "; ".join("line %d: cfg(%s)" % b for b in bad[:4])) if bad
+                   else "%d cfg predicate(s), all decided by the feature configurations analysed" % len(preds), "%s:%d" % (rel, bad[0][0] if bad else 1))
+    if n == 0:
+        rep.ob("cfg.analysed", "workspace", False, "no source file found")
